@@ -598,3 +598,5 @@ MUTANTS = [
 
 RENAME_FUNCS = [(F, n) for n in ('quantize_to_step', 'steps_per_quarter_to_steps_per_second', '_quantize_notes', 'quantize_note_sequence',
                                  'quantize_note_sequence_absolute', '_is_power_of_2')]
+
+EXPLANATION += (" Location-independent additions: PAIR/running-maximum (a field raised against a snapshot of itself taken before the loop), ESC/change-not-exempted-by-time (the rejection of a changed tempo/meter inside the loop does not depend on the event's time).")
